@@ -143,7 +143,9 @@ def frame(ctx, o, eff: Effects):
     prog = ctx.prog
     for S in BOTH:
         for key in ('pass_', 'search', 'fill', 'prepare'):
-            f = prog.func(S[key])
+            f = prog.funcs.get(S[key]) if key == 'prepare' else prog.func(S[key])
+            if f is None:
+                continue        # the clearing loop was folded into calc (analysed there by C07)
             for (fld, root) in sorted(eff.writes_star(f)):
                 via = eff.write_origin(f, (fld, root))
                 if fld in TASK_DATA_FIELDS:
@@ -199,7 +201,9 @@ def fresh(ctx, o, eff: Effects):
                                              f"by an earlier calc are skipped")
         # stores on self outside __init__
         for key in ('calc', 'pass_', 'search', 'fill', 'prepare'):
-            f = prog.func(S[key])
+            f = prog.funcs.get(S[key]) if key == 'prepare' else prog.func(S[key])
+            if f is None:
+                continue
             for w in eff.direct_writes(f):
                 if w.root == 'self':
                     if w.field == S['resources'] and w.kind == 'mutate:setdefault':
